@@ -9,6 +9,7 @@ derived from the width).
 -/
 import Rl4co.Proofs.TspfamPdp
 import Rl4co.Proofs.Sort
+import Rl4co.Proofs.TspfamParams
 import Rl4co.Props.C05.Pdp
 
 namespace Rl4co.Pdp
@@ -23,8 +24,8 @@ theorem zipWith_map_same {α β : Type} (f : β → β → Bool) (g g' : α → 
 /-- equal sizes: element-wise comparison -/
 theorem bcastLt_same_iff (m : Nat) (g g' : Nat → Nat) :
     bcastLt ((List.range m).map g) ((List.range m).map g') = true ↔ ∀ t, t < m → g t < g' t := by
-  simp only [bcastLt, List.length_map, if_true, zipWith_map_same, List.all_map, List.all_eq_true,
-    List.mem_range, Function.comp, id, decide_eq_true_eq]
+  simp only [bcastLt, Tspfam.bcastCmp, Cmp.evalNat, List.length_map, if_true, zipWith_map_same, List.all_map,
+    List.all_eq_true, List.mem_range, Function.comp, id, decide_eq_true_eq]
 
 /-- the checker body on the (possibly depot-prefixed) action list -/
 def checkActs (acts : List Nat) : Bool :=
@@ -36,7 +37,8 @@ def checkActs (acts : List Nat) : Bool :=
     ((List.range (L - k)).map (fun t => acts.idxOf (k + t)))
 
 theorem check_eq (i : Inst) (as : List Nat) :
-    check i as = checkActs (if i.force then as else 0 :: as) := rfl
+    check i as = checkActs (if i.force then as else 0 :: as) := by
+  rw [check_unfold]; rfl
 
 /-- what acceptance means for an action list of odd width `2m + 1` -/
 theorem checkActs_iff_odd (m : Nat) (acts : List Nat) (hlen : acts.length = 2 * m + 1) :
@@ -189,6 +191,55 @@ theorem check_sound_partial_force_tour (i : Inst) (hf : i.force = true) {as : Li
         refine ⟨a :: ys, Or.inr (by simp), ?_⟩
         apply feasible_of_checkActs_snoc i.h (a :: ys) (by simpa using hrl)
         simpa using hc
+
+/-- **C06 (PDP, no forced start), exact characterisation.** -/
+theorem feasible_iff_check_and_width (i : Inst) (hf : i.force = false) (cs : List Nat) :
+    Spec.Pdp.Feasible i.h cs ↔ (check i cs = true ∧ cs.length = i.n) :=
+  ⟨fun h => ⟨check_complete i hf h, by simpa [Inst.n] using spec_length h⟩,
+   fun ⟨hc, hl⟩ => check_sound_partial i hf hl hc⟩
+
+/-- a feasible customer sequence followed by the depot is accepted as well -/
+theorem checkActs_snoc_of_feasible (h : Nat) (cs : List Nat) (hf : Spec.Pdp.Feasible h cs) :
+    checkActs (cs ++ [0]) = true := by
+  have hlen := spec_length hf
+  refine (checkActs_iff_odd h (cs ++ [0]) (by simp [hlen])).mpr ⟨?_, ?_, ?_⟩
+  · rw [range_succ_eq]
+    have hmid : (cs ++ [0]).Perm (0 :: cs) := by
+      have := List.perm_middle (a := 0) (l₁ := cs) (l₂ := [])
+      simp only [List.append_nil] at this
+      exact this
+    exact hmid.trans (List.Perm.cons 0 (spec_perm hf))
+  · intro a ha
+    have hsub : a ∈ cs := by
+      cases cs with
+      | nil => simp at ha
+      | cons c rest =>
+        simp only [List.cons_append, List.drop_succ_cons, List.drop_zero, List.dropLast_concat] at ha
+        exact List.mem_cons_of_mem _ ha
+    have := hf.range a hsub
+    omega
+  · intro t ht
+    have hmem : ∀ v, 1 ≤ v → v ≤ 2 * h → v ∈ cs := by
+      intro v hv1 hv2
+      exact List.count_pos_iff.mp (by have := hf.once v hv1 hv2; omega)
+    have := hf.prec (1 + t) (by omega) (by omega)
+    have e2 : h + 1 + t = 1 + t + h := by omega
+    rw [e2, List.idxOf_append, List.idxOf_append, if_pos (hmem (1 + t) (by omega) (by omega)),
+      if_pos (hmem (1 + t + h) (by omega) (by omega))]
+    exact this
+
+/-- **C06 (PDP, forced start), exact characterisation**: the accepted full-width action lists are exactly
+the feasible closed depot tours (depot first or last). -/
+theorem feasibleTour_iff_check_and_width (i : Inst) (hf : i.force = true) (as : List Nat) :
+    Spec.Pdp.FeasibleTour i.h as ↔ (check i as = true ∧ as.length = i.n + 1) := by
+  constructor
+  · rintro ⟨cs, (rfl | rfl), hfe⟩
+    · exact ⟨check_complete_force i hf ⟨cs, rfl, hfe⟩, by simp [Inst.n, spec_length hfe]⟩
+    · refine ⟨?_, by simp [Inst.n, spec_length hfe]⟩
+      rw [check_eq, hf]
+      exact checkActs_snoc_of_feasible i.h cs hfe
+  · rintro ⟨hc, hl⟩
+    exact check_sound_partial_force_tour i hf hl hc
 
 /-- Non-vacuity. -/
 example : check ⟨2, false, fun _ _ => 0⟩ [2, 1, 4, 3] = true :=
